@@ -11,7 +11,7 @@
 (* run-time value.  Expression trees of depth 2 compose the table.         *)
 (***************************************************************************)
 EXTENDS Integers, Sequences, FiniteSets, TLC, Json
-CONSTANTS Types, BinOps, CmpOps, Depth2
+CONSTANTS Types, BinOps, CmpOps, Depth2, Shapes
 
 Num(t) == t \in {"int", "float", "bool"}
 Seq_(t) == t \in {"list", "tuple"}
@@ -36,7 +36,11 @@ Py(op, l, r) ==
 VARIABLES e, verdict
 vars == <<e, verdict>>
 Leaf == [k : {"leaf"}, t : Types]
-Cell == [k : {"bin"}, op : BinOps \cup CmpOps, l : Types, r : Types]
+\* shape of the operand value: "full" (a non-empty representative) or "empty" ('' / [] / ()): CPython's outcome depends on
+\* the operand TYPES only, so the table is the same -- an analysis that special-cases empty containers must not differ
+Sized(t) == t \in {"str", "list", "tuple"}
+Cell == {c \in [k : {"bin"}, op : BinOps \cup CmpOps, l : Types, r : Types, ls : Shapes, rs : Shapes] :
+            (c.ls = "empty" => Sized(c.l)) /\ (c.rs = "empty" => Sized(c.r))}
 \* depth 2: (l op1 r) op2 c   and   c op2 (l op1 r), with an arithmetic inner operator
 Tree2 == IF Depth2 THEN [k : {"left2", "right2"}, op1 : BinOps, op2 : BinOps \cup CmpOps, l : Types, r : Types, c : Types] ELSE {}
 
